@@ -66,6 +66,48 @@ class Body:
         self._reach = None
         self._edom = None
         self._vfcache = {}
+        self._fold_const_switches()
+
+    def _fold_const_switches(self):
+        """`if cfg!(debug_assertions)` and similar: a switch on a local whose only definition in the whole body is
+        `local = const <int>` is replaced by a goto (the dead arm becomes unreachable)."""
+        cands = {}
+        for bb, blk in enumerate(self.blocks):
+            t = blk["t"]
+            if t[0] == "switch" and t[1][0] in ("m", "c") and len(t[1][1]) == 1 and isinstance(t[1][1][0], int):
+                cands.setdefault(t[1][1][0], []).append(bb)
+        if not cands:
+            return
+        vals = {}
+        bad = set()
+        for blk in self.blocks:
+            for st in blk["s"]:
+                if st[0] == "=" and st[2][0] in ("ref", "addr", "rawptr") and isinstance(st[2][-1], list) and st[2][-1] and st[2][-1][0] in cands:
+                    bad.add(st[2][-1][0])
+                if st[0] == "=" and isinstance(st[1], list) and st[1] and st[1][0] in cands:
+                    l = st[1][0]
+                    rv = st[2]
+                    if len(st[1]) == 1 and l not in vals and l not in bad and rv[0] == "use" and rv[1][0] == "k" and isinstance(rv[1][1].get("v"), int) \
+                            and rv[1][1].get("ty") in ("bool",):
+                        vals[l] = rv[1][1]["v"]
+                    else:
+                        bad.add(l)
+            t = blk["t"]
+            if t[0] == "call":
+                d = t[1].get("dest")
+                if isinstance(d, list) and d and d[0] in cands:
+                    bad.add(d[0])
+        for l, v in vals.items():
+            if l in bad or l <= self.argc:
+                continue
+            for bb in cands[l]:
+                t = self.blocks[bb]["t"]
+                tgt = t[3]
+                for a in t[2]:
+                    if a[0] == v:
+                        tgt = a[1]
+                self.blocks[bb] = dict(self.blocks[bb])
+                self.blocks[bb]["t"] = ["goto", tgt]
 
     def __repr__(self):
         return "<Body %s>" % self.key
